@@ -161,15 +161,23 @@ class CellWrapper:
             actual_width += length
             last_adapted_col = col
 
+        remaining_columns = len(
+            [length for length in long_column_lengths if length is not None]
+        )
+
         # Fit columns into available width
         for col, length in enumerate(long_column_lengths):
             if length is None:
                 continue
 
+            remaining_columns -= 1
+
             # Keep ratios of column lengths and distribute them among the
-            # available width
-            self._column_lengths[col] = int(
-                round((length / actual_width) * available_width)
+            # available width, leaving at least one character for this column
+            # and for each of the columns that are still to be fitted
+            column_length = int(round((length / actual_width) * available_width))
+            self._column_lengths[col] = max(
+                1, min(column_length, available_width - remaining_columns)
             )
 
             if col == last_adapted_col:
@@ -183,8 +191,9 @@ class CellWrapper:
             # Recalculate the column length based on the actual wrapped length
             self._refresh_column_length(col)
 
-            # Recalculate the actual width based on the changed length.
-            actual_width = actual_width - length + self._column_lengths[col]
+            # The remaining columns share what is left of the available width
+            actual_width -= length
+            available_width -= self._column_lengths[col]
 
         self._total_width = sum(self._column_lengths)
 
